@@ -38,6 +38,7 @@ type Frame struct {
 type b64Pair struct {
 	chars []*Term
 	bytes []*Term
+	flt   *Term
 }
 
 type nondetVar struct {
